@@ -57,6 +57,18 @@ func syncRun(w *bufio.Writer, rng *rand.Rand, run int, o syncOpts, stats map[str
 		N = 4 + rng.Intn(4)
 		restartNode = rng.Intn(N)
 		restartAt = rng.Intn(80)
+	case "c09x": // exactly F silent from the start plus a restart of a live validator (anti-MEV mostly on)
+		N = 4 + rng.Intn(4)
+		for len(silent) < (N-1)/3 {
+			silent[rng.Intn(N)] = true
+		}
+		for restartNode < 0 || silent[restartNode] {
+			restartNode = rng.Intn(N)
+		}
+		restartAt = rng.Intn(60)
+		if rng.Intn(4) != 0 {
+			amev = int64(startHeight)
+		}
 	case "c16":
 		dyn = true
 		ratio := []int64{2, 3, 3, 10, 1}[rng.Intn(5)]
@@ -98,6 +110,9 @@ func syncRun(w *bufio.Writer, rng *rand.Rand, run int, o syncOpts, stats map[str
 	}
 	injected := false
 	reproposed := false
+	lazy := map[int]bool{}
+	waited := false
+	ledgerSyncs := 0
 	reset := func(n *node) {
 		if o.mode == "c16" && txMode == 1 {
 			n.pool = []uint64{uint64(n.height)*10 + 1}
@@ -181,13 +196,11 @@ func syncRun(w *bufio.Writer, rng *rand.Rand, run int, o syncOpts, stats map[str
 			mon.byz[restartNode] = true // a node that forgot its state counts as faulty for C01/C03
 			nOut := len(n.out)
 			n.start(n.lastTS)
-			// did the fresh instance propose again in an epoch in which the old one had already proposed?
-			for _, p := range n.out[nOut:] {
-				if p.T == dbft.PrepareRequestType {
-					if oh, ok := old.tr.proposals[p.V]; ok && old.tr.height == p.Hgt && oh != p.Hash() {
-						reproposed = true
-					}
-				}
+			// the old instance had already proposed at the height it is restarted in: the fresh one either proposes
+			// again (equivocation) or is handed its own forgotten proposal by its peers
+			_ = nOut
+			if old.tr.height == old.d.BlockIndex && len(old.tr.proposals) > 0 {
+				reproposed = true
 			}
 			restartAt = -1
 			collect(step)
@@ -204,9 +217,45 @@ func syncRun(w *bufio.Writer, rng *rand.Rand, run int, o syncOpts, stats map[str
 				maxView = n.d.ViewNumber
 			}
 			if n.height != before {
+				if rng.Intn(4) == 0 {
+					lazy[n.id] = true // slow ledger: Reset comes later, payloads keep arriving meanwhile
+				} else {
+					reset(n)
+				}
+			}
+			if lazy[n.id] && n.height == before && (rng.Intn(5) == 0 || n.d.VerifSnapshot().BlockProcessed && !hasPendingFor(pending, n.id)) {
+				delete(lazy, n.id)
 				reset(n)
 			}
 		} else {
+			// time may pass once while a slow node is not yet re-initialised, but only if that cannot by itself cost a
+			// view: the others form a quorum and the slow node is not the next primary
+			allowWait := false
+			if len(lazy) > 0 && !waited && len(nodes)-len(lazy) >= nodes[0].d.M() {
+				allowWait = true
+				for _, n := range nodes {
+					if lazy[n.id] {
+						for _, m := range nodes {
+							if !lazy[m.id] && m.d.BlockIndex == n.d.BlockIndex+1 && int(m.d.PrimaryIndex) == n.d.MyIndex {
+								allowWait = false
+							}
+						}
+					}
+				}
+			}
+			if len(lazy) > 0 && allowWait && rng.Intn(2) == 0 {
+				waited = true
+			} else if len(lazy) > 0 {
+				waited = false
+				for _, n := range nodes {
+					if lazy[n.id] {
+						delete(lazy, n.id)
+						reset(n)
+					}
+				}
+				collect(step)
+				continue
+			}
 			// ledger synchronisation: a node that fell behind nodes it can reach gets their blocks from the
 			// ledger layer and is re-initialised by the application
 			synced := false
@@ -221,6 +270,7 @@ func syncRun(w *bufio.Writer, rng *rand.Rand, run int, o syncOpts, stats map[str
 				if src != nil {
 					n.height, n.tip, n.lastTS = src.height, src.tip, src.lastTS
 					stats[o.mode+":ledger-sync"]++
+					ledgerSyncs++
 					reset(n)
 					synced = true
 				}
@@ -231,11 +281,21 @@ func syncRun(w *bufio.Writer, rng *rand.Rand, run int, o syncOpts, stats map[str
 			}
 			var best *node
 			for _, n := range nodes {
-				if n.tm.armed && (best == nil || n.tm.deadline.Before(best.tm.deadline)) {
+				if n.tm.armed && !lazy[n.id] && (best == nil || n.tm.deadline.Before(best.tm.deadline)) {
 					best = n
 				}
 			}
 			if best == nil {
+				if len(lazy) > 0 {
+					for _, n := range nodes {
+						if lazy[n.id] {
+							delete(lazy, n.id)
+							reset(n)
+						}
+					}
+					collect(step)
+					continue
+				}
 				break
 			}
 			if best.tm.deadline.After(best.tm.now) {
@@ -304,6 +364,9 @@ func syncRun(w *bufio.Writer, rng *rand.Rand, run int, o syncOpts, stats map[str
 		if stuck {
 			mon.nhit(rep, "C08", "not-decided", fmt.Sprintf("fault-free synchronous run N=%d amev=%d dyn=%v start=%d: heights%s, target %d", N, amev, dyn, startHeight, hs, target))
 		}
+		if ledgerSyncs > 0 {
+			mon.nhit(rep, "C08", "height-not-decided-by-consensus", fmt.Sprintf("fault-free synchronous run N=%d amev=%d dyn=%v start=%d: %d times a validator did not decide a height from the delivered messages and had to be brought up by the ledger", N, amev, dyn, startHeight, ledgerSyncs))
+		}
 		if cvrr > 0 || maxView > 0 {
 			mon.nhit(rep, "C08", "view-change-or-recovery", fmt.Sprintf("fault-free synchronous run N=%d amev=%d dyn=%v start=%d: %d ChangeView/RecoveryRequest broadcasts, max view %d", N, amev, dyn, startHeight, cvrr, maxView))
 		}
@@ -327,7 +390,7 @@ func syncRun(w *bufio.Writer, rng *rand.Rand, run int, o syncOpts, stats map[str
 		if stuck {
 			sig := "stalled/" + o.mode
 			if reproposed {
-				sig = "stalled/restarted-primary-proposed-twice"
+				sig = "stalled/restart-of-a-primary-that-had-proposed"
 			}
 			mon.nhit(rep, "C09", sig, fmt.Sprintf("run N=%d mode=%s silent=%d cut=%v[%d+%d] restart=%d: heights%s, target %d", N, o.mode, len(silent), cut, cutFrom, cutLen, restartNode, hs, target))
 		}
@@ -337,4 +400,13 @@ func syncRun(w *bufio.Writer, rng *rand.Rand, run int, o syncOpts, stats map[str
 	}
 	stats[fmt.Sprintf("%s:maxView=%d", o.mode, maxView)]++
 	endRun(w, mon, nodes...)
+}
+
+func hasPendingFor(p []pend, id int) bool {
+	for _, x := range p {
+		if x.to == id {
+			return true
+		}
+	}
+	return false
 }
